@@ -4,7 +4,10 @@ authenticators (harness/ext/c12*.go) and checkAPIKey (package main, overlay
 driver), in two phases: the implementation runs first and reports, next to
 its answer, the clock readings and the real HMAC values of exactly the data
 it had to sign or verify; the extracted model is then evaluated on the same
-request with those values as its MAC function."""
+request with those values as its MAC function.
+Token RE-ISSUANCE on {login} (Session.login / onLogin, reset flow, temporary tokens of {acc};
+model Sys/Relogin.v, theorems c12_relogin_* / c12_tmp_token_*) is the part in c12relogin.py:
+package-main driver zz_verif_c12x_test.go, histories of logins, laws relogin-* / reset-* / tmp-token-*."""
 import base64
 import hashlib
 import hmac
@@ -358,7 +361,10 @@ def mon_token(c, r, a, fails):
                 fails.append(("token-yields-issued", c, "issued for %s, yields %s" % ((uid0, lvl0, feat0), ok[:3])))
             L = int(d["L"][0])
             asked = L if L != 0 else int(w[3]) * SEC
-            if "rl" in d and int(d["rl"][0]) > asked:
+            # GenSecret rounds the expiry instant to the NEAREST millisecond (Round(time.Millisecond)): up to half a
+            # millisecond more than asked is the code's stated arithmetic (c12_token_never_outlives has a whole second of
+            # slack); without it the law fired when the rounding crossed a second boundary (seen once in ~15 runs)
+            if "rl" in d and int(d["rl"][0]) > asked + 500000:
                 fails.append(("token-never-outlives", c, "remaining validity %s ns exceeds the %d ns asked for" % (d["rl"][0], asked)))
     elif mut[0] == "craft":
         if ser != vserial:
@@ -621,6 +627,8 @@ def run(ctx):
             "wall clock: read by the driver around each call and passed to the model; expiry decisions are kept >= 1 s away from the boundary by construction of the cases",
             "tools/props/c12.py monitors (python restatement of the theorems incl. an independent HMAC computation, evaluated on the implementation's answers)",
             "net/http per-request panic recovery (the reason the API-key panic is a refusal by crash and not a server crash) is not modelled",
+            "token re-issuance part (tools/props/c12relogin.py): the environment of each login - user record in state OK, a required validator left unvalidated - is computed by the plugin from the fixture of zz_verif_c11_test.go / zz_verif_c12x_test.go and given to the model as input; the verdict of the code authenticator on the reset flow's codes is a python restatement of Pure/Code.v (single use, max_retries 3); the fresh authenticator instances are made by reflection from the registered singletons and installed behind store.Store.GetLogicalAuthHandler by a wrapper of store.Store",
+            "promptness premise of c12_relogin_restricted_step / c12_relogin_chain (the clock readings of one login less than 0.9995 s apart) cannot be enforced without a clock hook: the laws allow the measured wall time of the dispatch instead, and the model is evaluated at both ends of the measured bracket",
         ],
     })
     ctx.finish()
